@@ -19,8 +19,10 @@ def rect_mesh(nx, ny, symmetry, right=False, span=10.0, chord=2.0, seed=None, ji
     mesh = np.array(mesh, dtype=float)
     if jitter:
         rng = np.random.default_rng(seed or 0)
-        mesh[:, :, 0] += jitter * rng.random(mesh.shape[:2])
-        mesh[:, :, 2] += jitter * rng.random(mesh.shape[:2])
+        # dyadic offsets: float arithmetic on them is exact, so the concrete option data mean the same
+        # rationals to numpy and to the solver
+        mesh[:, :, 0] += np.round(jitter * rng.random(mesh.shape[:2]) * 64) / 64
+        mesh[:, :, 2] += np.round(jitter * rng.random(mesh.shape[:2]) * 64) / 64
     if right:
         mesh = mesh[:, ::-1, :].copy()
         mesh[:, :, 1] *= -1.0
